@@ -41,13 +41,14 @@ def collect(wt, mid, prop):
     good = True
     good &= step("with change: unit tests", "cargo test --offline --lib", True)
     good &= step("with change: doc tests", "cargo test --offline --doc", True)
-    good &= step("with change: demo", "cargo test --offline --test %s" % name, False)
+    extra = os.environ.get("DEMO_ARGS", "")
+    good &= step("with change: demo", "cargo test --offline %s --test %s" % (extra, name), False)
     # (no `git stash`: the stash is shared by all worktrees of /repo)
     pf = os.path.join(d, "patch.diff")
     rc, out = sh(["git", "apply", "-R", pf], cwd=wt)
     assert rc == 0, out
     try:
-        good &= step("without change: demo", "cargo test --offline --test %s" % name, True)
+        good &= step("without change: demo", "cargo test --offline %s --test %s" % (extra, name), True)
     finally:
         sh(["git", "apply", pf], cwd=wt)
     meta = dict(id=mid, property=prop, confirmed=bool(good), demo=demo, ran=ran,
